@@ -59,6 +59,9 @@ THEOREM = {
     'reparam_dir': ('reparam_dir', 'PyObject_reparam_dir_eq'),
     'set_dimension': ('set_dimension', 'PyObject_set_dimension_eq'),
     'force_rational': ('force_rational', 'PyObject_force_rational_eq'),
+    'translate': ('translate', 'PyObject_translate_eq'),
+    'scale': ('scale', 'PyObject_scale_eq'),
+    'project': ('project', 'PyObject_project_eq'),
 }
 # guards of the theorems (repeated in the obligation detail); see the docstrings in PyObjectEq.lean
 GUARDS = {
@@ -79,6 +82,12 @@ GUARDS = {
     'reparam_dir': 'one basis per parametric axis',
     'set_dimension': 'new_dim >= 0; controlpoints has at least one axis; ncomp >= 1; len(cps.data) = prod(shape)',
     'force_rational': 'controlpoints has at least one axis; ncomp >= 1; len(cps.data) = prod(shape)',
+    'translate': 'controlpoints has at least one axis; ncomp >= 1; len(cps.data) = prod(shape); len(self) = number of '
+                 'control points; equal to Obj.translateChecked (IndexError of x[i] for a short x included)',
+    'scale': 'controlpoints has at least one axis; dimension >= 1; len(cps.data) = prod(shape); len(self) = number of '
+             'control points; *args are numbers (ensure_flatlist idealised)',
+    'project': 'controlpoints has at least one axis; ncomp >= 1; len(cps.data) = prod(shape); equal to '
+               'Obj.projectChecked with keep = [c in plane.lower() for c in "xyz"]',
 }
 # theorems that are weaker than extensional equality (say so in the obligation)
 PARTIAL = {}
@@ -86,7 +95,7 @@ PARTIAL = {}
 EXTRA = {'evaluate_fn': ('PyObject_evaluate_fn_pointwise_eq',), 'evaluate': ('PyObject_evaluate_tensor_eq',)}
 EXTRA_THEOREMS = tuple(t for v in EXTRA.values() for t in v)
 # translated and elaborated, no equality theorem (yet): obligation = translates and elaborates
-TRANSLATION_ONLY = ('translate', 'scale', 'project', 'derivative')
+TRANSLATION_ONLY = ('derivative',)
 
 _MEM = {}
 
@@ -450,6 +459,16 @@ MUTS = {
  'setdim_insert_pos':  ('obj', "np.insert(self.controlpoints, dim, np.zeros(shape[:-1]), self.pardim)", "np.insert(self.controlpoints, 0, np.zeros(shape[:-1]), self.pardim)", ['set_dimension']),
  'setdim_loop_test':   ('obj', "        while new_dim > dim:", "        while new_dim > dim + 1:", ['set_dimension']),
  'force_rational_ones':('obj', "np.insert(self.controlpoints, dim, np.ones(shape[:-1]), self.pardim)", "np.insert(self.controlpoints, dim, np.zeros(shape[:-1]), self.pardim)", ['force_rational']),
+ 'translate_promote':  ('obj', "        if len(x) > dim:  # typical case", "        if len(x) >= dim:  # typical case", ['translate']),
+ 'translate_column':   ('obj', "translation_matrix[i, -1] = x[i]", "translation_matrix[i, 0] = x[i]", ['translate']),
+ 'translate_no_T':     ('obj', "cp = cp @ translation_matrix.T  # right-mult", "cp = cp @ translation_matrix  # right-mult", ['translate']),
+ 'translate_store':    ('obj', "self.controlpoints = np.reshape(np.array(cp[:, :-1]), self.controlpoints.shape)", "self.controlpoints = np.reshape(np.array(cp), self.controlpoints.shape)", ['translate']),
+ 'scale_dups':         ('obj', "s = ensure_listlike(s, dups=3)", "s = ensure_listlike(s, dups=2)", ['scale']),
+ 'scale_diag':         ('obj', "scale_matrix[i, i] = s[i]", "scale_matrix[i, 0] = s[i]", ['scale']),
+ 'scale_matrix_size':  ('obj', "scale_matrix = np.identity(dim + rat)", "scale_matrix = np.identity(dim + 1)", ['scale']),
+ 'project_keep':       ('obj', "            if not keep[i]:", "            if keep[i]:", ['project']),
+ 'project_letters':    ('obj', "keep = [c in plane.lower() for c in 'xyz']", "keep = [c in plane.lower() for c in 'xzy']", ['project']),
+ 'project_value':      ('obj', "self.controlpoints[..., i] = 0", "self.controlpoints[..., i] = 1", ['project']),
  'force_rational_val': ('obj', "            self.rational = 1\n", "            self.rational = 2\n", ['force_rational']),
  'default_arg':        ('obj', "def reverse(self, direction=0):", "def reverse(self, direction=1):", ['reverse']),
  'unknown_syntax':     ('obj', "        direction = check_direction(direction, self.pardim)\n        self.bases[direction].reverse()", "        direction = check_direction(direction, self.pardim)\n        while False: pass\n        self.bases[direction].reverse()", ['reverse']),
